@@ -2,6 +2,7 @@ package astisub
 
 import (
 	"bytes"
+	"context"
 	"math/bits"
 
 	"github.com/asticode/go-astikit"
@@ -113,15 +114,9 @@ func vpesData(pid uint16, pts int64, payload []byte) *astits.DemuxerData {
 
 // C06 H6: stream level: one cue per transmitted non-empty instance of the selected page, start/end from the PES
 // presentation times relative to the first one; other pages, magazines, PIDs and non-subtitle units contribute nothing.
-func VH_C06_StreamTiming() {
-	vmode("int")
-	k := choose(vbound("schedules", 8, 16))
+// vc06Schedule fills the NextData provider with schedule k and presentation times t[0..3] (90 kHz units).
+func vc06Schedule(k int, t []int64) {
 	serial := k%2 == 1
-	p0 := nondetInt64(0, 8589934591-400000)
-	d1 := nondetInt64(1, 100000)
-	d2 := nondetInt64(1, 100000)
-	d3 := nondetInt64(1, 100000)
-	t := []int64{p0, p0 + d1, p0 + d1 + d2, p0 + d1 + d2 + d3}
 	vtsData, vtsPos = nil, 0
 	// PES 0: instance A of page 888 (rows 20, 22)
 	vtsData = append(vtsData, vpesData(100, t[0], vpes(vheader(0, 8, 8, true, serial, 0), vrow(0, 22, "world"), vrow(0, 20, "hello"))))
@@ -141,8 +136,19 @@ func VH_C06_StreamTiming() {
 	if (k/4)%2 == 1 {
 		vtsData = append(vtsData, nil) // the demultiplexer yields nothing (nil data, nil error) at the end of some streams
 	}
+}
+
+func VH_C06_StreamTiming() {
+	vmode("int")
+	k := choose(vbound("schedules", 8, 16))
+	p0 := nondetInt64(0, 8589934591-400000)
+	d1 := nondetInt64(1, 100000)
+	d2 := nondetInt64(1, 100000)
+	d3 := nondetInt64(1, 100000)
+	t := []int64{p0, p0 + d1, p0 + d1 + d2, p0 + d1 + d2 + d3}
+	vc06Schedule(k, t)
 	vreach("pre")
-	s, err := ReadFromTeletext(bytes.NewReader(nil), TeletextOptions{PID: 100, Page: 888})
+	s, err := ReadFromTeletext(bytes.NewReader(vtsBytes()), TeletextOptions{PID: 100, Page: 888})
 	vassert(err == nil, "C06 stream: readable")
 	if err != nil {
 		return
@@ -275,4 +281,33 @@ func VH_C06_DataUnits() {
 	b.process(&astits.PESData{Data: data}, t)
 	vassert(vimplies(b.receiving, b.currentPage != nil), "C06 data units: receiving implies a current page")
 	vreach("end")
+}
+
+// vtsBytes: natively (replay, validation) the data sequence of the NextData provider is multiplexed into a real
+// transport stream with astits.Muxer, so that the native run goes through the real demultiplexer; the engine
+// intercepts this function (the result is unused there: NextData is provided by vstubNextData).
+func vtsBytes() []byte {
+	var buf bytes.Buffer
+	m := astits.NewMuxer(context.Background(), &buf)
+	seen := map[uint16]bool{}
+	first := true
+	for _, d := range vtsData {
+		if d == nil || d.PES == nil || seen[d.PID] {
+			continue
+		}
+		seen[d.PID] = true
+		m.AddElementaryStream(astits.PMTElementaryStream{ElementaryPID: d.PID, StreamType: astits.StreamTypePrivateData})
+		if first {
+			m.SetPCRPID(d.PID)
+			first = false
+		}
+	}
+	for _, d := range vtsData {
+		if d == nil || d.PES == nil {
+			continue
+		}
+		m.WriteData(&astits.MuxerData{PID: d.PID, PES: &astits.PESData{Data: d.PES.Data, Header: &astits.PESHeader{StreamID: astits.StreamIDPrivateStream1,
+			OptionalHeader: &astits.PESOptionalHeader{DataAlignmentIndicator: true, MarkerBits: 2, PTS: d.PES.Header.OptionalHeader.PTS, PTSDTSIndicator: astits.PTSDTSIndicatorOnlyPTS}}}})
+	}
+	return buf.Bytes()
 }
